@@ -13,6 +13,7 @@ e (round 3)  the measured drift is max|C_i - C_0|/|C_0| of the Jacobi constant (
 b-pipeline (round 3)  two manifold services never hold the same (stateful) stability pipeline object
 b (round 4)  the cleaning step keeps the eigen-solver order and the value/vector pairing (non-monotone moduli)
 b (round 5)  the engine path that really runs (_invoke_backend; _LinalgBackend.run is dead code) hands matrix, delta, tol, system type to the backend and labels the six outputs
+d (round 5)  a negative integration fraction is rejected before anything is propagated (the time direction is the branch's, not the sign of the span)
 """
 from __future__ import annotations
 
@@ -25,7 +26,7 @@ import sympy as sp
 from ..core import Check, AnalysisError
 from .. import repoindex as ri
 from .. import sites
-from ..kpe import Interp, SymObj, ClassRef, FuncRef, UFunc, Opaque, to_obj_array, S, OutsideFragment
+from ..kpe import Interp, SymObj, ClassRef, FuncRef, UFunc, Opaque, to_obj_array, S, OutsideFragment, KpeRaise
 from ..alg import Radicals, is_zero, short
 from ..regions import RegionDecider
 from . import common
@@ -525,6 +526,27 @@ def _bcde_run_compute(chk):
             chk.count("functions partially evaluated")
             if not (isinstance(res, tuple) and len(res) == 6):
                 raise AnalysisError("_run_compute no longer returns the 6-tuple result")
+            if stable == 1 and not guard_prox and not guard_energy:
+                # d: the branch direction is the manifold's, not the sign of a number: a negative integration fraction makes tf negative, the fixed-step integrator
+                # then integrates the decreasing grid of the direction-wrapped system - a stable branch runs FORWARD in time (the adaptive one rejects the grid and
+                # the exception is swallowed: nothing is returned).  It must be rejected before anything is propagated.
+                n_before = len(cap["prop"])
+                rejected = False
+                try:
+                    ip.apply(ip.getattr(svc, "_run_compute"), [], dict(
+                        step=sp.Rational(1, 2), integration_fraction=sp.Rational(-3, 10), NN=1, displacement=sp.Symbol("disp"), method="fixed", order=8,
+                        dt=sp.Symbol("dt", positive=True), energy_tol=sp.Symbol("etol", positive=True), safe_distance=sp.Symbol("safe", positive=True), show_progress=False))
+                except KpeRaise:
+                    rejected = True
+                neg = [kw for kw in cap["prop"][n_before:] if kw.get("tf") is not None and S(kw["tf"]).is_number and S(kw["tf"]) < 0]
+                chk.check(rejected or not neg, "C12.d", f"{MAN}::_ManifoldDynamicsService._run_compute[negative integration_fraction]",
+                          f"integration_fraction = -3/10 is accepted: {len(neg)} propagation(s) over tf = {S(neg[0]['tf']) if neg else None} with forward = {neg[0].get('forward') if neg else None} "
+                          f"are requested: the stable branch is integrated forward in time", sample="negative integration_fraction: rejected before any propagation")
+                n_extra = len(cap["prop"]) - n_before
+                del cap["prop"][n_before:]
+                if n_extra:
+                    del cap["sections"][len(cap["sections"]) - n_extra:]
+                del cap["energy"][len(cap["energy"]) - min(n_extra, len(cap["energy"])):]
             states_list, times_list = res[2], res[3]
             tag = f"stable={stable},prox={guard_prox},energy={guard_energy}"
             # e: retention
